@@ -1,26 +1,29 @@
 import PolyVerif.Base.Proto
 import PolyVerif.Base.Chan
 /-
-Model of uniprot.Parse (/repo/io/uniprot/uniprot.go, after the fixes: `break` after forwarding a token
-error; an error for a stream that ends before any element).
+Model of uniprot.Parse (/repo/io/uniprot/uniprot.go, after the fixes: `break` after a token error; an
+error for a stream that ends before any element; errors are KEPT and sent after close(entries), 1559ed9).
 
     sawElement := false
+    var decoderErrors []error
     for {
         tok, err := decoder.Token()
         if err != nil {
-            if err.Error() == "EOF" { if !sawElement { errors <- io.ErrUnexpectedEOF }; break }
-            errors <- err; break
+            if err.Error() == "EOF" { if !sawElement { keep io.ErrUnexpectedEOF }; break }
+            keep err; break
         }
         start, ok := tok.(xml.StartElement)
         if ok { sawElement = true }
         if ok && start.Name.Local == "entry" {
             var e Entry
             err = decoder.DecodeElement(&e, &start)
-            if err != nil { errors <- err }
+            if err != nil { keep err }
             entries <- e                    // NOTE: also after an error (a partial entry)
         }
     }
-    close(entries); close(errors)
+    close(entries)
+    for _, err := range decoderErrors { errors <- err }
+    close(errors)
 
 The decoder (encoding/xml) is ABSTRACT: all the loop sees of it is, per iteration, one of
   other           Token() returned something that is not a start element
@@ -66,7 +69,7 @@ inductive End where
 structure Trace where
   evs : List Ev
   fin : End
-  deriving Repr
+  deriving Repr, DecidableEq
 
 /-- what travels on the two channels -/
 inductive Msg where
@@ -74,17 +77,19 @@ inductive Msg where
   | error
   deriving DecidableEq, Repr
 
-/-- the loop, iteration by iteration: the channel operations it performs; the first argument is `sawElement` -/
-def loop : Bool → List Ev → End → List (Op Msg)
-  | saw, [], .eof => if saw then [] else [.send 1 .error]
-  | _, [], .err => [.send 1 .error]
+/-- the loop, iteration by iteration: the sends it performs on the entries channel, and the errors it
+keeps (`decoderErrors`, in order); the first argument is `sawElement` -/
+def loop : Bool → List Ev → End → List (Op Msg) × List Msg
+  | saw, [], .eof => ([], if saw then [] else [.error])
+  | _, [], .err => ([], [.error])
   | saw, .other :: r, f => loop saw r f
   | _, .start :: r, f => loop true r f
-  | _, .entry e :: r, f => .send 0 (.entry e) :: loop true r f
-  | _, .entryErr e :: r, f => .send 1 .error :: .send 0 (.entry e) :: loop true r f
+  | _, .entry e :: r, f => let x := loop true r f; (.send 0 (.entry e) :: x.1, x.2)
+  | _, .entryErr e :: r, f => let x := loop true r f; (.send 0 (.entry e) :: x.1, .error :: x.2)
 
-/-- uniprot.Parse as a producer program -/
-def program (t : Trace) : List (Op Msg) := loop false t.evs t.fin ++ [.close 0, .close 1]
+/-- uniprot.Parse as a producer program: the loop's entry sends, close(entries), the kept errors, close(errors) -/
+def program (t : Trace) : List (Op Msg) :=
+  (loop false t.evs t.fin).1 ++ [.close 0] ++ (loop false t.evs t.fin).2.map (Op.send 1) ++ [.close 1]
 
 /-- the entries the loop sends, in order (complete or partial) -/
 def entriesOf : List Ev → List Entry
@@ -108,7 +113,7 @@ def finErrors (saw : Bool) : End → Nat
   | .err => 1
   | .eof => if saw then 0 else 1
 
-/-- number of errors the loop forwards, started with `sawElement = saw` -/
+/-- number of errors the loop keeps, started with `sawElement = saw` -/
 def numErrorsFrom (saw : Bool) (evs : List Ev) (f : End) : Nat :=
   (evs.filter isErrEv).length + finErrors (saw || evs.any isStartEv) f
 
